@@ -693,3 +693,370 @@ Proof.
   destruct (sequential (fun t : res Z => t) tasks) as [ws|e]; [|discriminate].
   rewrite (list_eqb_eq vs ws H). reflexivity.
 Qed.
+
+(* ================================================================================================
+   pre_process_sequences: the result does not depend on the worker count or the schedule
+   ================================================================================================ *)
+Definition pf_t := (prec -> res prec) -> list prec -> res (list prec).
+
+(* what is needed of a helper: a returned list is the sequential one (C18_order) ... *)
+Definition pf_sound (pf : pf_t) : Prop := forall f l out, pf f l = Ok out -> sequential f l = Ok out.
+(* ... and when every call returns, the helper returns the list or never returns *)
+Definition pf_live (pf : pf_t) : Prop :=
+  forall f l rs, sequential f l = Ok rs -> pf f l = Ok rs \/ pf f l = Err E_Fuel.
+
+Lemma pf_sound_parallel : forall cfg sched, pf_sound (fun f => parallel_function f cfg 0 None sched).
+Proof. intros cfg sched f l out H. exact (order_sound f cfg 0 None sched l out H). Qed.
+
+Lemma pf_sound_sequential : pf_sound sequential.
+Proof. intros f l out H. exact H. Qed.
+
+Lemma pf_live_parallel : forall cfg sched, 1 <= cfg -> pf_live (fun f => parallel_function f cfg 0 None sched).
+Proof.
+  intros cfg sched Hc f l rs Hs.
+  assert (Hc' : 1 <= effective_cpus cfg 0) by (unfold effective_cpus; simpl; exact Hc).
+  destruct (no_spurious_outcome f cfg 0 None sched l rs Hc' Hs) as [H|[[_ H]|H]].
+  - left. exact H.
+  - exfalso. apply H. reflexivity.
+  - right. exact H.
+Qed.
+
+Lemma stage1_sound : forall pf o s0 s1, pf_sound pf ->
+  pp_stage1 pf o s0 = Ok s1 -> pp_stage1 sequential o s0 = Ok s1.
+Proof.
+  intros pf o s0 s1 Hpf H. unfold pp_stage1 in *. destruct (o_checking o); [|exact H].
+  destruct s0 as [|r [|r2 t]]; [exact (Hpf _ _ _ H)|exact H|exact (Hpf _ _ _ H)].
+Qed.
+
+Lemma stage2_sound : forall pf gf o s4 s5, pf_sound pf ->
+  pp_stage2 pf gf o s4 = Ok s5 -> pp_stage2 sequential gf o s4 = Ok s5.
+Proof.
+  intros pf gf o s4 s5 Hpf H. unfold pp_stage2 in *. destruct (o_checking o); [|exact H].
+  exact (Hpf _ _ _ H).
+Qed.
+
+Lemma pp_gen_sound : forall pf1 pf2 gf o recs out, pf_sound pf1 -> pf_sound pf2 ->
+  pre_process_gen pf1 pf2 gf o recs = Ok out -> pre_process_gen sequential sequential gf o recs = Ok out.
+Proof.
+  intros pf1 pf2 gf o recs out H1 H2 H. unfold pre_process_gen in *.
+  destruct (existsb _ recs); [discriminate|].
+  destruct (pp_stage1 pf1 o (set_indices 1 recs)) as [s1|e] eqn:E1; [|discriminate].
+  rewrite (stage1_sound pf1 o _ s1 H1 E1). cbn [bind] in *.
+  destruct (filter_by_name (o_target o) s1) as [s2|e]; [|discriminate]. cbn [bind] in *.
+  destruct (filter_by_count (o_limit o) (apply_minlength (o_minlength o) s2)) as [hit s4].
+  destruct (pp_stage2 pf2 gf o s4) as [s5|e] eqn:E2; [|discriminate].
+  rewrite (stage2_sound pf2 gf o s4 s5 H2 E2). exact H.
+Qed.
+
+Lemma stage1_live : forall pf o s0 s1, pf_live pf ->
+  pp_stage1 sequential o s0 = Ok s1 -> pp_stage1 pf o s0 = Ok s1 \/ pp_stage1 pf o s0 = Err E_Fuel.
+Proof.
+  intros pf o s0 s1 Hpf H. unfold pp_stage1 in *. destruct (o_checking o); [|left; exact H].
+  destruct s0 as [|r [|r2 t]]; [exact (Hpf _ _ _ H)|left; exact H|exact (Hpf _ _ _ H)].
+Qed.
+
+Lemma stage2_live : forall pf gf o s4 s5, pf_live pf ->
+  pp_stage2 sequential gf o s4 = Ok s5 -> pp_stage2 pf gf o s4 = Ok s5 \/ pp_stage2 pf gf o s4 = Err E_Fuel.
+Proof.
+  intros pf gf o s4 s5 Hpf H. unfold pp_stage2 in *. destruct (o_checking o); [|left; exact H].
+  exact (Hpf _ _ _ H).
+Qed.
+
+Lemma pp_gen_live : forall pf1 pf2 gf o recs out, pf_live pf1 -> pf_live pf2 ->
+  pre_process_gen sequential sequential gf o recs = Ok out ->
+  pre_process_gen pf1 pf2 gf o recs = Ok out \/ pre_process_gen pf1 pf2 gf o recs = Err E_Fuel.
+Proof.
+  intros pf1 pf2 gf o recs out H1 H2 H. unfold pre_process_gen in *.
+  destruct (existsb _ recs); [discriminate|].
+  destruct (pp_stage1 sequential o (set_indices 1 recs)) as [s1|e] eqn:E1; [|discriminate].
+  destruct (stage1_live pf1 o _ s1 H1 E1) as [E|E]; rewrite E; cbn [bind] in *; [|right; reflexivity].
+  destruct (filter_by_name (o_target o) s1) as [s2|e]; [|discriminate]. cbn [bind] in *.
+  destruct (filter_by_count (o_limit o) (apply_minlength (o_minlength o) s2)) as [hit s4].
+  destruct (pp_stage2 sequential gf o s4) as [s5|e] eqn:E2; [|discriminate].
+  destruct (stage2_live pf2 gf o s4 s5 H2 E2) as [E'|E']; rewrite E'; cbn [bind] in *; [|right; reflexivity].
+  left. exact H.
+Qed.
+
+Lemma pp_gen_ext : forall pf1 pf2 pf1' pf2' gf o recs,
+  (forall f l, pf1 f l = pf1' f l) -> (forall f l, pf2 f l = pf2' f l) ->
+  pre_process_gen pf1 pf2 gf o recs = pre_process_gen pf1' pf2' gf o recs.
+Proof.
+  intros pf1 pf2 pf1' pf2' gf o recs H1 H2. unfold pre_process_gen.
+  destruct (existsb _ recs); [reflexivity|].
+  assert (E1 : pp_stage1 pf1 o (set_indices 1 recs) = pp_stage1 pf1' o (set_indices 1 recs)).
+  { unfold pp_stage1. destruct (o_checking o); [|reflexivity].
+    destruct (set_indices 1 recs) as [|r [|r2 t]]; [apply H1|reflexivity|apply H1]. }
+  rewrite E1. destruct (pp_stage1 pf1' o (set_indices 1 recs)) as [s1|e]; [|reflexivity]. cbn [bind].
+  destruct (filter_by_name (o_target o) s1) as [s2|e]; [|reflexivity]. cbn [bind].
+  destruct (filter_by_count (o_limit o) (apply_minlength (o_minlength o) s2)) as [hit s4].
+  assert (E2 : pp_stage2 pf2 gf o s4 = pp_stage2 pf2' gf o s4).
+  { unfold pp_stage2. destruct (o_checking o); [apply H2|reflexivity]. }
+  rewrite E2. reflexivity.
+Qed.
+
+(* the clauses of the property for pre_process_sequences *)
+Lemma preprocess_workers_irrelevant : forall gf o cfg sched1 sched2 recs out,
+  pre_process gf o cfg sched1 sched2 recs = Ok out -> pre_process_inproc gf o recs = Ok out.
+Proof.
+  intros gf o cfg sched1 sched2 recs out H. unfold pre_process in H. unfold pre_process_inproc.
+  exact (pp_gen_sound _ _ gf o recs out (pf_sound_parallel cfg sched1) (pf_sound_parallel cfg sched2) H).
+Qed.
+
+Lemma preprocess_failure_surfaces : forall gf o cfg sched1 sched2 recs e0,
+  pre_process_inproc gf o recs = Err e0 -> exists e, pre_process gf o cfg sched1 sched2 recs = Err e.
+Proof.
+  intros gf o cfg sched1 sched2 recs e0 Hs.
+  destruct (pre_process gf o cfg sched1 sched2 recs) as [out|e] eqn:Hp.
+  - apply preprocess_workers_irrelevant in Hp. rewrite Hp in Hs. discriminate.
+  - exists e. reflexivity.
+Qed.
+
+Lemma preprocess_cpus1 : forall gf o sched1 sched2 recs,
+  pre_process gf o 1 sched1 sched2 recs = pre_process_inproc gf o recs.
+Proof.
+  intros gf o sched1 sched2 recs. unfold pre_process, pre_process_inproc.
+  apply pp_gen_ext; intros f l; apply cpus1_is_map; reflexivity.
+Qed.
+
+Lemma preprocess_no_spurious_outcome : forall gf o cfg sched1 sched2 recs out,
+  1 <= cfg -> pre_process_inproc gf o recs = Ok out ->
+  pre_process gf o cfg sched1 sched2 recs = Ok out \/ pre_process gf o cfg sched1 sched2 recs = Err E_Fuel.
+Proof.
+  intros gf o cfg sched1 sched2 recs out Hc H. unfold pre_process. unfold pre_process_inproc in H.
+  exact (pp_gen_live _ _ gf o recs out (pf_live_parallel cfg sched1 Hc) (pf_live_parallel cfg sched2 Hc) H).
+Qed.
+
+(* non-vacuity for every worker count and batch: schedules under which the in-process result is returned *)
+Lemma preprocess_completing_schedules_exist : forall gf o cfg recs out,
+  1 <= cfg -> pre_process_inproc gf o recs = Ok out ->
+  exists sched1 sched2, pre_process gf o cfg sched1 sched2 recs = Ok out.
+Proof.
+  intros gf o cfg recs out Hc H. unfold pre_process_inproc in H. unfold pre_process, pre_process_gen in *.
+  assert (Hc' : 1 <= effective_cpus cfg 0) by (unfold effective_cpus; simpl; exact Hc).
+  destruct (existsb _ recs); [discriminate|].
+  destruct (pp_stage1 sequential o (set_indices 1 recs)) as [s1|e] eqn:E1; [|discriminate]. cbn [bind] in H.
+  assert (X1 : exists sched1, pp_stage1 (fun f => parallel_function f cfg 0 None sched1) o (set_indices 1 recs) = Ok s1).
+  { unfold pp_stage1 in *. destruct (o_checking o); [|exists []; exact E1].
+    destruct (set_indices 1 recs) as [|r [|r2 t]].
+    - exact (completing_schedule_exists _ cfg 0 _ s1 Hc' E1).
+    - exists []. exact E1.
+    - exact (completing_schedule_exists _ cfg 0 _ s1 Hc' E1). }
+  destruct X1 as [sched1 X1]. exists sched1. rewrite X1. cbn [bind].
+  destruct (filter_by_name (o_target o) s1) as [s2|e]; [|discriminate]. cbn [bind] in *.
+  destruct (filter_by_count (o_limit o) (apply_minlength (o_minlength o) s2)) as [hit s4].
+  destruct (pp_stage2 sequential gf o s4) as [s5|e] eqn:E2; [|discriminate]. cbn [bind] in H.
+  assert (X2 : exists sched2, pp_stage2 (fun f => parallel_function f cfg 0 None sched2) gf o s4 = Ok s5).
+  { unfold pp_stage2 in *. destruct (o_checking o); [|exists []; exact E2].
+    exact (completing_schedule_exists _ cfg 0 _ s5 Hc' E2). }
+  destruct X2 as [sched2 X2]. exists sched2. rewrite X2. cbn [bind]. exact H.
+Qed.
+
+(* ---------- what comes back: id, record_index and the sanitised sequence of every record, in argument order ---------- *)
+Definition key (r : prec) : Z * Z * list Z := (r_id r, r_index r, r_seq r).
+Definition gf_keeps (gf : prec -> res prec) : Prop := forall r r', gf r = Ok r' -> key r' = key r.
+
+Lemma mapM_proj : forall {A B C} (f : A -> res B) (p : B -> C) (q : A -> C),
+  (forall a b, f a = Ok b -> p b = q a) ->
+  forall l l', mapM f l = Ok l' -> map p l' = map q l.
+Proof.
+  intros A B C f p q Hf. induction l as [|a l IH]; intros l' H; cbn [mapM] in H.
+  - inversion H. reflexivity.
+  - destruct (f a) as [b|e] eqn:Ea; [|discriminate]. cbn [bind] in H.
+    destruct (mapM f l) as [bs|e]; [|discriminate]. cbn [bind] in H. inversion H. subst l'.
+    cbn [map]. rewrite (Hf a b Ea), (IH bs eq_refl). reflexivity.
+Qed.
+
+Lemma stage1_seq_checking : forall o s0, o_checking o = true ->
+  pp_stage1 sequential o s0 = mapM sanitise_sequence s0.
+Proof.
+  intros o s0 Hc. unfold pp_stage1. rewrite Hc. destruct s0 as [|r [|r2 t]]; reflexivity.
+Qed.
+
+Lemma sanitise_key : forall r r', sanitise_sequence r = Ok r' ->
+  key r' = (r_id r, r_index r, fst (sanitise_chars (r_seq r))).
+Proof.
+  intros r r' H. unfold sanitise_sequence in H. destruct (sanitise_chars (r_seq r)) as [s real].
+  inversion H. reflexivity.
+Qed.
+
+Lemma ensure_key : forall gf run r r', gf_keeps gf -> ensure_cds_info gf run r = Ok r' -> key r' = key r.
+Proof.
+  intros gf run r r' Hg H. unfold ensure_cds_info in H.
+  destruct (skipped r); [inversion H; reflexivity|].
+  destruct (r_ncds r =? 0); [|inversion H; reflexivity].
+  destruct run.
+  - destruct (gf r) as [x|e] eqn:Eg; [|discriminate]. cbn [bind] in H.
+    destruct (r_ncds x =? 0); inversion H; subst r'; [change (key (set_skip S_NoGenes x)) with (key x)|];
+      exact (Hg r x Eg).
+  - cbn [bind] in H. destruct (r_ncds r =? 0); inversion H; reflexivity.
+Qed.
+
+Lemma filter_by_name_key : forall t l l', filter_by_name t l = Ok l' -> map key l' = map key l.
+Proof.
+  intros t l l' H. unfold filter_by_name in H. destruct t as [t|]; [|inversion H; reflexivity].
+  destruct (existsb _ l); [|discriminate]. inversion H. rewrite map_map. apply map_ext.
+  intro r. destruct (r_id r =? t); reflexivity.
+Qed.
+
+Lemma apply_minlength_key : forall m l, map key (apply_minlength m l) = map key l.
+Proof.
+  intros m l. unfold apply_minlength. rewrite map_map. apply map_ext.
+  intro r. destruct (zlen (r_seq r) <? m); reflexivity.
+Qed.
+
+Lemma mark_skipped_key : forall hit l i, map key (mark_skipped hit i l) = map key l.
+Proof.
+  intros hit. induction l as [|r l IH]; intro i; [reflexivity|]. cbn [mark_skipped map].
+  rewrite IH. destruct (existsb (Nat.eqb i) hit); reflexivity.
+Qed.
+
+Lemma filter_by_count_key : forall m l, map key (snd (filter_by_count m l)) = map key l.
+Proof.
+  intros m l. unfold filter_by_count. destruct ((m =? -1) || (zlen l <? m)); [reflexivity|].
+  cbn [snd]. apply mark_skipped_key.
+Qed.
+
+Lemma set_indices_key : forall l i,
+  map r_id (set_indices i l) = map r_id l /\ map r_seq (set_indices i l) = map r_seq l /\
+  map r_index (set_indices i l) = zrange i (length l).
+Proof.
+  induction l as [|r l IH]; intro i; [repeat split; reflexivity|].
+  cbn [set_indices map length zrange]. destruct (IH (i + 1)) as [H1 [H2 H3]].
+  rewrite H1, H2, H3. repeat split; reflexivity.
+Qed.
+
+Lemma preprocess_keeps_batch : forall gf o cfg sched1 sched2 recs hit out,
+  gf_keeps gf -> o_checking o = true ->
+  pre_process gf o cfg sched1 sched2 recs = Ok (hit, out) ->
+  map r_id out = map r_id recs /\
+  map r_index out = zrange 1 (length recs) /\
+  map r_seq out = map (fun r => fst (sanitise_chars (r_seq r))) recs.
+Proof.
+  intros gf o cfg sched1 sched2 recs hit out Hg Hc H.
+  apply preprocess_workers_irrelevant in H. unfold pre_process_inproc, pre_process_gen in H.
+  destruct (existsb _ recs); [discriminate|].
+  rewrite (stage1_seq_checking o _ Hc) in H.
+  destruct (mapM sanitise_sequence (set_indices 1 recs)) as [s1|e] eqn:E1; [|discriminate]. cbn [bind] in H.
+  destruct (filter_by_name (o_target o) s1) as [s2|e] eqn:E2; [|discriminate]. cbn [bind] in H.
+  pose proof (filter_by_count_key (o_limit o) (apply_minlength (o_minlength o) s2)) as K4.
+  destruct (filter_by_count (o_limit o) (apply_minlength (o_minlength o) s2)) as [hit' s4]. cbn [snd] in K4.
+  unfold pp_stage2 in H. rewrite Hc in H. unfold sequential in H.
+  destruct (mapM (ensure_cds_info gf (o_run_gf o)) s4) as [s5|e] eqn:E5; [|discriminate]. cbn [bind] in H.
+  destruct (forallb skipped s5); [discriminate|]. inversion H. subst hit' s5. clear H.
+  assert (K : map key out = map (fun r => (r_id r, r_index r, fst (sanitise_chars (r_seq r)))) (set_indices 1 recs)).
+  { rewrite (mapM_proj _ key key (fun a b => ensure_key gf (o_run_gf o) a b Hg) s4 out E5).
+    rewrite K4, apply_minlength_key, (filter_by_name_key _ _ _ E2).
+    exact (mapM_proj _ key _ sanitise_key _ s1 E1). }
+  destruct (set_indices_key recs 1) as [I1 [I2 I3]].
+  assert (P1 : map r_id out = map (fun k => fst (fst k)) (map key out)) by (rewrite map_map; reflexivity).
+  assert (P2 : map r_index out = map (fun k => snd (fst k)) (map key out)) by (rewrite map_map; reflexivity).
+  assert (P3 : map r_seq out = map snd (map key out)) by (rewrite map_map; reflexivity).
+  rewrite P1, P2, P3, K, !map_map. cbn [fst snd].
+  repeat split.
+  - exact I1.
+  - exact I3.
+  - change (map (fun x : prec => fst (sanitise_chars (r_seq x))) (set_indices 1 recs))
+      with (map (fun x : prec => (fun s => fst (sanitise_chars s)) (r_seq x)) (set_indices 1 recs)).
+    rewrite <- (map_map r_seq (fun s => fst (sanitise_chars s))), I2, map_map. reflexivity.
+Qed.
+
+(* ---------- sanitise_sequence: what the sanitised sequence is ---------- *)
+Definition clean_base (c : Z) : Prop := c = 65 \/ c = 67 \/ c = 71 \/ c = 84 \/ c = 78.
+
+Lemma is_acgt_cases : forall u, is_acgt u = true -> (u = 65 \/ u = 67 \/ u = 71 \/ u = 84).
+Proof. intros u H. unfold is_acgt in H. lia. Qed.
+
+Lemma sanitise_chars_alphabet : forall s, Forall clean_base (fst (sanitise_chars s)).
+Proof.
+  induction s as [|c s IH]; [constructor|]. cbn [sanitise_chars].
+  destruct (sanitise_chars s) as [out real]. cbn [fst] in IH.
+  destruct (upper c =? 45); [exact IH|].
+  destruct (is_acgt (upper c)) eqn:Ea; cbn [fst]; constructor; try exact IH.
+  - apply is_acgt_cases in Ea. unfold clean_base. lia.
+  - unfold clean_base. lia.
+Qed.
+
+Lemma sanitise_chars_idempotent : forall s, sanitise_chars (fst (sanitise_chars s)) = sanitise_chars s.
+Proof.
+  induction s as [|c s IH]; [reflexivity|]. cbn [sanitise_chars].
+  destruct (sanitise_chars s) as [out real]. cbn [fst] in IH.
+  destruct (upper c =? 45); [exact IH|].
+  destruct (is_acgt (upper c)) eqn:Ea; cbn [fst sanitise_chars]; rewrite IH.
+  - assert (Hu : upper (upper c) = upper c).
+    { apply is_acgt_cases in Ea. unfold upper at 1.
+      destruct ((97 <=? upper c) && (upper c <=? 122)) eqn:E; [lia|reflexivity]. }
+    rewrite Hu. assert (H45 : (upper c =? 45) = false) by (apply is_acgt_cases in Ea; lia).
+    rewrite H45, Ea. reflexivity.
+  - reflexivity.
+Qed.
+
+Lemma sanitise_chars_flag : forall s, snd (sanitise_chars s) = existsb (fun c => is_acgt (upper c)) s.
+Proof.
+  induction s as [|c s IH]; [reflexivity|]. cbn [sanitise_chars existsb].
+  destruct (sanitise_chars s) as [out real]. cbn [snd] in IH.
+  destruct (upper c =? 45) eqn:E45.
+  - assert (Ha : is_acgt (upper c) = false) by (unfold is_acgt; lia). rewrite Ha. exact IH.
+  - destruct (is_acgt (upper c)); cbn [snd]; [reflexivity|exact IH].
+Qed.
+
+Lemma sanitise_spec : forall r, exists r',
+  sanitise_sequence r = Ok r' /\
+  Forall clean_base (r_seq r') /\
+  sanitise_sequence r' = Ok r' /\
+  r_id r' = r_id r /\ r_index r' = r_index r /\ r_ncds r' = r_ncds r /\ r_rest r' = r_rest r /\
+  r_skip r' = (if existsb (fun c => is_acgt (upper c)) (r_seq r) then r_skip r else S_NoSeq).
+Proof.
+  intro r. unfold sanitise_sequence.
+  pose proof (sanitise_chars_alphabet (r_seq r)) as Ha.
+  pose proof (sanitise_chars_idempotent (r_seq r)) as Hi.
+  pose proof (sanitise_chars_flag (r_seq r)) as Hf.
+  destruct (sanitise_chars (r_seq r)) as [s real]. cbn [fst snd] in *.
+  eexists. split; [reflexivity|]. cbn [r_seq r_id r_index r_ncds r_rest r_skip].
+  rewrite Hi. subst real.
+  repeat split; try exact Ha.
+  destruct (existsb _ (r_seq r)); reflexivity.
+Qed.
+
+(* ---------- the run-time specification of pre_process_sequences ---------- *)
+Lemma list_eqb_gen_eq : forall {A} (eqb : A -> A -> bool), (forall x y, eqb x y = true -> x = y) ->
+  forall a b, list_eqb eqb a b = true -> a = b.
+Proof.
+  intros A eqb He. induction a as [|x a IH]; intros [|y b] H; cbn [list_eqb] in H; try discriminate; [reflexivity|].
+  apply andb_prop in H. destruct H as [H1 H2]. rewrite (IH b H2), (He x y H1). reflexivity.
+Qed.
+
+Lemma list_eqb_gen_refl : forall {A} (eqb : A -> A -> bool), (forall x, eqb x x = true) ->
+  forall a, list_eqb eqb a a = true.
+Proof. intros A eqb He. induction a as [|x a IH]; [reflexivity|]. cbn [list_eqb]. rewrite He, IH. reflexivity. Qed.
+
+Lemma prec_eqb_eq : forall a b, prec_eqb a b = true -> a = b.
+Proof.
+  intros [i1 x1 s1 k1 n1 t1] [i2 x2 s2 k2 n2 t2] H. unfold prec_eqb in H. cbn in H.
+  repeat (apply andb_prop in H; destruct H as [H ?]).
+  apply Z.eqb_eq in H. apply Z.eqb_eq in H0. apply Z.eqb_eq in H1. apply Z.eqb_eq in H2. apply Z.eqb_eq in H4.
+  apply list_eqb_eq in H3. subst. reflexivity.
+Qed.
+
+Lemma prec_eqb_refl : forall a, prec_eqb a a = true.
+Proof. intro a. unfold prec_eqb. rewrite !Z.eqb_refl, list_eqb_refl. reflexivity. Qed.
+
+Lemma pp_spec_ok_sound : forall gf o recs x,
+  pp_spec_ok gf o recs (Ok x) = true -> pre_process_inproc gf o recs = Ok x.
+Proof.
+  intros gf o recs [h l] H. unfold pp_spec_ok in H.
+  destruct (pre_process_inproc gf o recs) as [[h' l']|e]; [|discriminate].
+  apply andb_prop in H. destruct H as [H1 H2].
+  apply Bool.eqb_prop in H1. apply (list_eqb_gen_eq prec_eqb prec_eqb_eq) in H2. subst. reflexivity.
+Qed.
+
+Lemma pp_model_meets_spec : forall gf o cfg sched1 sched2 recs,
+  1 <= cfg -> pre_process gf o cfg sched1 sched2 recs <> Err E_Fuel ->
+  pp_spec_ok gf o recs (pre_process gf o cfg sched1 sched2 recs) = true.
+Proof.
+  intros gf o cfg sched1 sched2 recs Hc Hnf. unfold pp_spec_ok.
+  destruct (pre_process_inproc gf o recs) as [[h l]|e0] eqn:Hs.
+  - destruct (preprocess_no_spurious_outcome gf o cfg sched1 sched2 recs (h, l) Hc Hs) as [E|E].
+    + rewrite E. rewrite Bool.eqb_reflx. exact (list_eqb_gen_refl prec_eqb prec_eqb_refl l).
+    + contradiction.
+  - destruct (preprocess_failure_surfaces gf o cfg sched1 sched2 recs e0 Hs) as [e E]. rewrite E. reflexivity.
+Qed.
